@@ -7,9 +7,9 @@ package main
 // specification (Trace_Mash.tla), never here.
 
 import (
-	"os"
 	"bytes"
 	"math"
+	"os"
 	"sort"
 	"strconv"
 
